@@ -18,7 +18,7 @@ from .tlaparse import find_prints
 
 PATHS = ['to_string', 'mysql', 'postgresql', 'sqlite', 'mssql', 'oracle']
 STYLE = {'to_string': 'lib_sq', 'mysql': 'mysql', 'postgresql': 'std', 'sqlite': 'std', 'mssql': 'std', 'oracle': 'std'}
-POSITIONS = ['select', 'where', 'inlist', 'insert', 'update', 'neg', 'sub', 'inlist-long', 'setop-subselect', 'insert-from-setop',
+POSITIONS = ['select', 'where', 'inlist', 'insert', 'update', 'neg', 'sub', 'inlist-long', 'inlist-150', 'inlist-1100', 'setop-subselect', 'insert-from-setop',
              # typed surroundings: a cast target type, list / operator siblings of another type (a renderer that infers
              # the literal's type from its context prints it through that type)
              'cast-int', 'cast-float', 'cast-char', 'inlist-after-int', 'inlist-after-float', 'inlist-before-int',
@@ -51,8 +51,9 @@ def build(pos, value):
         return Update(table=Identifier('t'), update_columns={'c': c},
                       where=BinaryOperation('=', args=[Identifier('d'), Constant(1)]))
     # a long list of constants (renderers like to special-case them); a constant inside a set operation used as a sub-select
-    if pos == 'inlist-long':
-        items = [Constant(i) for i in range(30)] + [c] + [Constant('v%d' % i) for i in range(30)]
+    if pos in ('inlist-long', 'inlist-150', 'inlist-1100'):
+        half = {'inlist-long': 30, 'inlist-150': 75, 'inlist-1100': 550}[pos]
+        items = [Constant(i) for i in range(half)] + [c] + [Constant('v%d' % i) for i in range(half)]
         return Select(targets=[Identifier('a')], from_table=Identifier('t'),
                       where=BinaryOperation('in', args=[Identifier('c'), Tuple(items=items)]))
     if pos in ('setop-subselect', 'insert-from-setop'):
